@@ -1330,13 +1330,21 @@ func (t *Terminal) dcs(s Seq) {
 		switch strings.ToUpper(s.Data) {
 		case "524742": // RGB
 			if t.Prof.Has(CapRGB) {
-				t.reply("\x1bP1+r524742=382F382F38\x1b\\")
+				if t.Prof.TcapNameOnly {
+					t.reply("\x1bP1+r524742\x1b\\")
+				} else {
+					t.reply("\x1bP1+r524742=382F382F38\x1b\\")
+				}
 			} else if !t.Prof.NoXTGETTCAP {
 				t.reply("\x1bP0+r524742\x1b\\")
 			}
 		case "536D756C78": // Smulx
 			if t.Prof.Has(CapSmulx) {
-				t.reply("\x1bP1+r536D756C78=5C455B343A25703125646D\x1b\\")
+				if t.Prof.TcapNameOnly {
+					t.reply("\x1bP1+r536D756C78\x1b\\")
+				} else {
+					t.reply("\x1bP1+r536D756C78=5C455B343A25703125646D\x1b\\")
+				}
 			} else if !t.Prof.NoXTGETTCAP {
 				t.reply("\x1bP0+r536D756C78\x1b\\")
 			}
